@@ -103,7 +103,7 @@ func (fc *fmtConfig) genDirective(rt *rapid.T) *Directive {
 	case 0:
 		d.Width = fmt.Sprint(rapid.IntRange(1, 12).Draw(rt, "w"))
 	case 1:
-		d.Width = []string{"1", "2", "5", "20", "40"}[rapid.IntRange(0, 4).Draw(rt, "w2")]
+		d.Width = []string{"1", "2", "5", "20", "40", "63", "64", "65", "130", "300"}[rapid.IntRange(0, 9).Draw(rt, "w2")]
 	case 2:
 		if !fc.noStar {
 			d.Width = "*"
@@ -112,6 +112,9 @@ func (fc *fmtConfig) genDirective(rt *rapid.T) *Directive {
 	switch rapid.IntRange(0, 7).Draw(rt, "prec") {
 	case 0:
 		d.Prec = "." + fmt.Sprint(rapid.IntRange(0, 8).Draw(rt, "p"))
+		if rapid.IntRange(0, 9).Draw(rt, "pbig") == 0 {
+			d.Prec = []string{".20", ".64", ".100"}[rapid.IntRange(0, 2).Draw(rt, "pb")]
+		}
 	case 1:
 		d.Prec = "."
 	case 2:
